@@ -10,8 +10,8 @@ def run(ctx: Ctx) -> int:
     jobs += [Job(H, "h_programs", timeout=t, name=f"h_programs[shard {i + 1}/{nsh}]", env={"VERIF_C15_SHARD": f"{i}/{nsh}"}) for i in range(nsh)]
     ctx.functions_encoded = ["definition/overloaded.py: OverloadedFunctionDef.check_call, synthesize_call, _call_error, OverloadNoMatchError, AvailableOverloadsHint",
                              "guppylang/decorator.py: guppy.overload; checker/expr_checker.py: check_call / synthesize_call of the variants, numeric coercion of arguments (through the real check())"]
-    ctx.bounds = {"kernel": "1..4 variants, each succeeding or raising a GuppyError (symbolic), synthesis and checking", "programs": "19 overload sets (arity, int/float/nat/bool, generic, tuple, differing result types, overload sets nested as variants, variants that accept an earlier argument and fail on a later one; 2-4 variants, "
-                  "overlapping) x 14 argument lists x 4 positions (synthesis; checked against int / float / bool) = 1064 calls, each compared with the direct calls of its variants"}
+    ctx.bounds = {"kernel": "1..4 variants, each succeeding or raising a GuppyError (symbolic), synthesis and checking", "programs": "22 overload sets (arity, int/float/nat/bool, generic, tuple, differing result types, overload sets nested as variants, variants that accept an earlier argument and fail on a later one, variants sharing one Python function name; 2-4 variants, "
+                  "overlapping) x 14 argument lists x 4 positions (synthesis; checked against int / float / bool) = 1232 calls, each compared with the direct calls of its variants"}
     ctx.outside_claim = ["run-time behaviour of the selected variant (follows from the checked call naming it)", "overload sets of the standard library other than through the programs above (range, result, panic are exercised by C18 / C32)",
                          "variants that raise a non-Guppy exception"]
     ctx.assumptions = ["'accepts the arguments' = the real checker accepts the direct call of that variant in the same position"]
@@ -19,6 +19,6 @@ def run(ctx: Ctx) -> int:
     return ctx.finish(
         level="model_checking",
         rule="kernel: case = one path = one valuation of (number of variants, which succeed, mode); programs: case = one overloaded call, solver-enumerated, judged against the direct calls of its variants through the real check()",
-        explanation="CrossHair/z3 symbolic execution of the real overload resolution loop with stand-in variants, plus the real check() on 1064 overloaded calls compared with the first directly applicable variant",
+        explanation="CrossHair/z3 symbolic execution of the real overload resolution loop with stand-in variants, plus the real check() on 1232 overloaded calls compared with the first directly applicable variant",
         trusted_base=["CPython 3.12", "crosshair-tool 0.0.110", "z3 5.1", "import shim"],
     )
